@@ -22,6 +22,7 @@ from . import engine as E
 
 NATIVE_MODELS = {}
 USED = set()
+FORCE_MODELS = False        # tools/xcheck.py --models: use the assumed library contracts on concrete arguments too
 
 
 def native_key(f):
@@ -53,7 +54,7 @@ def call_native(self, f, args, kwargs):
     k = native_key(f)
     m = NATIVE_MODELS.get(k)
     anysym = any(contains_sym(a) for a in args) or any(contains_sym(a) for a in kwargs.values())
-    if m is not None and (anysym or getattr(m, "always", False)):
+    if m is not None and (anysym or getattr(m, "always", False) or FORCE_MODELS):
         USED.add(getattr(m, "__name__", str(k)))
         if isinstance(k, tuple) and len(k) == 3:
             return m(self, f.__self__, list(args), dict(kwargs))
